@@ -2,8 +2,11 @@
    (T)        coq/Properties_C07.v
    (K-inner)  harness/embed_c07.c (real sexp_env_cell / sexp_identifier_eq_op on random environment chains,
               closures, rename entries, context free-variable lists) vs the extracted model, query by query
-   (K-mid)    (chibi ast) analyze of programs over the model's macro language vs the extracted `analyze`
-              (binding structure compared after canonical numbering), before and after swapping names
+   (K-inner') harness/c07_renamer.scm: the real make-renamer (direct and as er-macro-transformer builds it) on symbols
+              and on closures, several calls per renamer and several renamers, vs the extracted `rename` (eq? pattern)
+   (K-mid)    (chibi ast) analyze of programs over the model's macro language (global macros, let-syntax,
+              letrec-syntax) vs the extracted `analyze` (binding structure compared after canonical numbering),
+              before and after swapping names
    (K-outer)  metamorphic: generated programs over a library of macro shapes, evaluated by the scratch
               chibi-scheme (a) hand-expanded with globally fresh names, (b) with macros and fresh user names,
               (c) with user-bound variables renamed to keywords / standard procedures / names free in the
@@ -264,7 +267,8 @@ ADVERSARIAL = ["if", "lambda", "let", "set!", "quote", "begin", "define", "else"
                "let*", "letrec", "when", "unless", "quasiquote", "unquote", "list", "cons", "car", "cdr", "+", "-", ">", "<", "=",
                "not", "eq?", "memv", "apply", "append", "map", "t", "tmp", "loop", "i", "res", "ls", "len", "lp", "expr",
                "rename", "compare", "v", "e", "a", "b", "x", "y", "n", "c", "body", "clause", "rest", "name", "var", "_", "...",
-               "my-or2", "my-cond", "flat", "er-macro-transformer", "syntax-rules", "define-syntax", "let-syntax", "key", "tmp2"]
+               "my-or2", "my-cond", "flat", "er-macro-transformer", "syntax-rules", "define-syntax", "let-syntax", "key", "tmp2",
+               "p", "q", "e1", "e2", "temps", "letrec-syntax", "it"]
 
 
 class Gen:
@@ -275,6 +279,10 @@ class Gen:
         self.fixed = {}      # variables whose name is dictated by a macro (aif's `it`)
         self.aif_then = 0    # > 0 while generating the `then` branch of an aif (a closure with free name it)
         self.nested_aif = False
+        self.in_template = set()   # variables whose binder is written inside a syntax-rules template: not `...` / `_`
+        self.extra = {}      # var -> [(candidate: var id | name, [expressions whose user text must not use that name])]:
+                             # names the variable may take although the token check on its whole scope forbids them
+                             # (sibling keywords of a let-syntax, the macro's own name, temporaries of generated macros)
 
     def newvar(self):
         self.nv += 1
@@ -288,16 +296,17 @@ class Gen:
             return ('var', self.rng.choice(scope))
         return self.const()
 
-    def expr(self, scope, depth):
+    def expr(self, scope, depth, force=None):
         """an integer-valued expression"""
         rng = self.rng
-        if depth <= 0:
+        if depth <= 0 and force is None:
             return self.atom(scope)
         shapes = ['plus', 'lam', 'let', 'if', 'or2', 'or2b', 'sum', 'let1', 'lets', 'letstar', 'swap', 'repeat', 'cond',
                   'builtin-or', 'builtin-cond', 'builtin-do', 'builtin-let*', 'named-let', 'getter', 'let-syntax',
                   'letrec-syntax', 'my-if', 'sc-or2', 'incby', 'builtin-case', 'builtin-and', 'local-define-syntax', 'when',
-                  'else-var', 'else-var-builtin', 'kwlist', 'aif']
-        s = rng.choice(shapes)
+                  'else-var', 'else-var-builtin', 'kwlist', 'aif',
+                  'syn-sibling', 'syn-sibling', 'encl-kw', 'gen-ordered', 'gen-or', 'kw-after']
+        s = rng.choice(shapes) if force is None else force
         self.shapes.add(s)
         E = lambda sc=scope, d=depth - 1: self.expr(sc, d)
         if s == 'plus':
@@ -369,6 +378,51 @@ class Gen:
             return ('mac', s, [x, xv, f, E(), E(), rng.random() < 0.5])
         if s == 'kwlist':
             return ('mac', s, [E()])
+        if s == 'syn-sibling':
+            # a let-syntax / letrec-syntax with two sibling keywords G F; G's template refers to the user procedure H
+            # bound outside (and, letrec-syntax only, to the later sibling F); V is an unrelated outer variable.
+            # let-syntax: the specs are NOT in the scope of G and F, so H may be called like F or like G itself;
+            # both forms: V may be called like either keyword (it is not used inside the form)
+            rec = 'rec' if rng.random() < 0.4 else 'nonrec'
+            V, H, G, F = self.newvar(), self.newvar(), self.newvar(), self.newvar()
+            self.extra[V] = [(F, []), (G, [])]
+            if rec == 'nonrec':
+                self.extra[H] = [(F, []), (G, [])]
+            e1, e2 = E(), E()
+            if rec == 'nonrec' and rng.random() < 0.5:
+                # the keyword F named like a procedure G's template uses free (top-level outer binding): valid
+                # when the body's user text does not use that name
+                self.extra[F] = [('-', [e1, e2])]
+            return ('mac', s, [rec, V, E(), H, ('num', rng.randrange(0, 9)), G, F, e1, e2])
+        if s == 'encl-kw':
+            # a variable bound inside the body of a let-syntax may take the keyword's name where the keyword is not used
+            F, Y = self.newvar(), self.newvar()
+            e3 = self.expr(scope + [Y], depth - 1)
+            self.extra[Y] = [(F, [e3])]
+            return ('mac', s, [F, E(), Y, E(), e3])
+        if s == 'kw-after':
+            # a local keyword named like an outer variable that is used again after the let-syntax form
+            V, F = self.newvar(), self.newvar()
+            e1 = E()
+            self.extra[F] = [(V, [e1])]
+            return ('mac', s, [V, E(), F, e1, rng.random() < 0.5])
+        if s == 'gen-ordered':
+            # macro-defining macro whose generated macro introduces a binding per recursion step and accumulates
+            # the temporaries (every expansion of the generated macro must insert a NEW identifier)
+            d = rng.choice(['d1', 'd2'])
+            DEF, MK, NAME, T = self.newvar(), self.newvar(), self.newvar(), self.newvar()
+            es = [E() for _ in range(rng.choice([2, 3]))]
+            self.in_template |= {T, NAME, MK}
+            return ('mac', s, [d, DEF, MK, NAME, T, es])
+        if s == 'gen-or':
+            # macro whose template defines a binding-introducing macro (let-syntax) and uses it, in the same template,
+            # on a template-bound variable U: U may be spelled like the generated macro's temporary T
+            d = rng.choice(['d1', 'd2'])
+            WITH, WITH2, GOR, T, U = [self.newvar() for _ in range(5)]
+            self.extra[U] = [(T, [])]
+            self.extra[T] = [(U, [])]
+            self.in_template |= {WITH, GOR, T, U}
+            return ('mac', s, [d, WITH, WITH2, GOR, T, U, E()])
         if s == 'aif':
             it = self.newvar()
             self.fixed[it] = 'it'
@@ -385,10 +439,12 @@ class Gen:
 class Renderer:
     """mode 'mac': with macros, names from `names`; mode 'ref': macro-free, hand expansion, fresh g-names"""
 
-    def __init__(self, names, ref):
+    def __init__(self, names, ref, defect=False):
         self.names = names
         self.ref = ref
         self.g = 0
+        self.defect = defect      # hand-expand with the F-C07-2 behaviour (see run_outer)
+        self.it_stack = []        # `it` variables of the enclosing aif free-name branches
 
     def fresh(self):
         self.g += 1
@@ -525,8 +581,61 @@ class Renderer:
         if s == 'aif':
             it, test, then, alt = a
             if ref:
-                return "((lambda (%s) (if %s %s %s)) %s)" % (nm(it), nm(it), R(then), R(alt), R(test))
+                cond_it = self.it_stack[-1] if (self.defect and self.it_stack) else it
+                rt = R(test)
+                self.it_stack.append(it)
+                rthen = R(then)
+                self.it_stack.pop()
+                return "((lambda (%s) (if %s %s %s)) %s)" % (nm(it), nm(cond_it), rthen, R(alt), rt)
             return "(aif %s %s %s)" % (R(test), R(then), R(alt))
+        if s == 'syn-sibling':
+            rec, V, ev, H, c1, G, F, e1, e2 = a
+            hdef = "(lambda (x y) (+ x y %s))" % R(c1)
+            if ref:
+                g = "(%s (* %s 3) 0)" % (nm(H), R(e1)) if rec == 'rec' else "(%s (- %s 1) 0)" % (nm(H), R(e1))
+                return "((lambda (%s %s) (+ %s (+ %s (* %s 2)))) %s %s)" % (nm(V), nm(H), nm(V), g, R(e2), R(ev), hdef)
+            tg = "(%s (%s a 3) 0)" % (nm(H), nm(F)) if rec == 'rec' else "(%s (- a 1) 0)" % nm(H)
+            return "((lambda (%s %s) (+ %s (%s ((%s (syntax-rules () ((_ a) %s))) (%s (syntax-rules () ((_ a b) (* a b))))) (+ (%s %s) (%s %s 2))))) %s %s)" % (
+                nm(V), nm(H), nm(V), "letrec-syntax" if rec == 'rec' else "let-syntax", nm(G), tg, nm(F), nm(G), R(e1), nm(F), R(e2), R(ev), hdef)
+        if s == 'encl-kw':
+            F, e1, Y, e2, e3 = a
+            if ref:
+                return "(+ (* 2 %s) ((lambda (%s) %s) %s))" % (R(e1), nm(Y), R(e3), R(e2))
+            return "(let-syntax ((%s (syntax-rules () ((_ a) (* 2 a))))) (+ (%s %s) ((lambda (%s) %s) %s)))" % (nm(F), nm(F), R(e1), nm(Y), R(e3), R(e2))
+        if s == 'kw-after':
+            V, ev, F, e1, internal = a
+            if ref:
+                return "((lambda (%s) (+ (* 2 %s) %s)) %s)" % (nm(V), R(e1), nm(V), R(ev))
+            if internal:
+                return "((lambda (%s) (+ ((lambda () (define-syntax %s (syntax-rules () ((_ a) (* 2 a)))) (%s %s))) %s)) %s)" % (nm(V), nm(F), nm(F), R(e1), nm(V), R(ev))
+            return "((lambda (%s) (+ (let-syntax ((%s (syntax-rules () ((_ a) (* 2 a))))) (%s %s)) %s)) %s)" % (nm(V), nm(F), nm(F), R(e1), nm(V), R(ev))
+        if s == 'gen-ordered':
+            d, DEF, MK, NAME, T, es = a
+            if ref:
+                gs = [self.fresh() for _ in es]
+                out = "(- %s)" % " ".join(reversed(gs))
+                for g, x in reversed(list(zip(gs, es))):
+                    out = "((lambda (%s) %s) %s)" % (g, out, R(x))
+                return out
+            rules = "((_ () temps) (- . temps)) ((_ (e1 . rest) temps) ((lambda (%s) (name rest (%s . temps))) e1))" % (nm(T), nm(T))
+            inner = "(define-syntax name (syntax-rules () %s))" % rules
+            if d == 'd1':
+                defs = "(define-syntax %s (syntax-rules () ((_ name) %s))) (%s %s)" % (nm(DEF), inner, nm(DEF), nm(NAME))
+            else:
+                defs = "(define-syntax %s (syntax-rules () ((_ mk) (define-syntax mk (syntax-rules () ((_ name) %s)))))) (%s %s) (%s %s)" % (
+                    nm(DEF), inner, nm(DEF), nm(MK), nm(MK), nm(NAME))
+            return "((lambda () %s (%s (%s) ())))" % (defs, nm(NAME), " ".join(R(x) for x in es))
+        if s == 'gen-or':
+            d, WITH, WITH2, GOR, T, U, e = a
+            if ref:
+                gu, gt = self.fresh(), self.fresh()
+                return "((lambda (%s) ((lambda (%s) (if %s %s %s)) #f)) %s)" % (gu, gt, gt, gt, gu, R(e))
+            t1 = "(let-syntax ((%s (syntax-rules () ((_ a b) ((lambda (%s) (if %s %s b)) a))))) ((lambda (%s) (%s #f %s)) e1))" % (
+                nm(GOR), nm(T), nm(T), nm(T), nm(U), nm(GOR), nm(U))
+            if d == 'd1':
+                return "((lambda () (define-syntax %s (syntax-rules () ((_ e1) %s))) (%s %s)))" % (nm(WITH), t1, nm(WITH), R(e))
+            return "((lambda () (define-syntax %s (syntax-rules () ((_ e2) (let-syntax ((%s (syntax-rules () ((_ e1) %s)))) (%s e2))))) (%s %s)))" % (
+                nm(WITH2), nm(WITH), t1, nm(WITH), nm(WITH2), R(e))
         if s == 'letrec-syntax':
             m1, m2, e1, e2 = a
             if ref:
@@ -591,13 +700,24 @@ def run_outer(ctx, d, nprog):
         return
     run_corpus(ctx, d)
     exprs, meta = [], []
-    for p in range(nprog):
+    FOCUS = ['syn-sibling', 'syn-sibling', 'encl-kw', 'kw-after', 'gen-ordered', 'gen-or', 'letrec-syntax', 'let-syntax',
+             'getter', 'local-define-syntax']
+    nfocus = max(40, nprog // 5)
+    for p in range(nprog + nfocus):
         g = Gen(rng)
         depth = rng.choice([1, 2, 2, 3])
-        body = g.expr([], depth)
+        if p < nprog:
+            body = g.expr([], depth)
+        else:
+            # focused stream: the scoping shapes of local macro binding forms / macro-generating macros on top
+            body = g.expr([], rng.choice([1, 2]), force=rng.choice(FOCUS))
+            if rng.random() < 0.5:
+                v = g.newvar()
+                body = ('let', [(v, g.const())], ('call', '+', [('var', v), body]))
         prog = ('call', 'list', [body, g.expr([], 1)])
         base_names = {v: "u%d" % v for v in range(1, g.nv + 1)}
         ref = Renderer(base_names, True).r(prog)
+        refd = Renderer(base_names, True, defect=True).r(prog) if g.nested_aif else None
         base = None
         mac_names = dict(base_names)
         mac_names.update(g.fixed)
@@ -609,49 +729,73 @@ def run_outer(ctx, d, nprog):
         for _ in range(3 if bs else 0):
             names = dict(mac_names)
             chosen = rng.sample(bs, min(len(bs), rng.choice([1, 1, 2, 3])))
+            # binders with scoping-specific candidates come first half of the time
+            if g.extra and rng.random() < 0.6:
+                special = [b for b in bs if b[0] in g.extra]
+                chosen = [rng.choice(special)] + [c for c in chosen if c[0] not in g.extra][:rng.choice([0, 0, 1])]
             used_new = set()
             what = []
             for (v, scope) in chosen:
                 if names[v] != mac_names[v]:
                     continue
-                scope_text = " ".join(Renderer(names, False).r(x) for x in scope)
-                toks = set(TOKEN_RE.findall(scope_text))
-                if "'" in scope_text:
-                    toks.add("quote")          # 'x reads as (quote x): the user text does use `quote`
-                cands = [n for n in ADVERSARIAL if n not in toks and n not in used_new]
-                if not cands:
-                    continue
-                n = rng.choice(cands)
-                # no other variable renamed in this variant may already carry that name inside the scope
+                n = None
+                if v in g.extra and rng.random() < 0.75:
+                    # a name the scoping rules of the binding form allow although it occurs in the scope text
+                    cand, must_not_use = rng.choice(g.extra[v])
+                    cn = names[cand] if isinstance(cand, int) else cand
+                    txt = " ".join(Renderer(names, False).r(x) for x in must_not_use)
+                    tk = set(TOKEN_RE.findall(txt))
+                    if cn not in tk and cn not in used_new and cn != names[v] and not (isinstance(cand, int) and names[cand] != mac_names[cand]):
+                        n = cn
+                        used_new.add(cn)
+                if n is None:
+                    scope_text = " ".join(Renderer(names, False).r(x) for x in scope)
+                    toks = set(TOKEN_RE.findall(scope_text))
+                    if "'" in scope_text:
+                        toks.add("quote")          # 'x reads as (quote x): the user text does use `quote`
+                    # candidates: the adversarial list + every other name of the program (other binders, local keywords)
+                    pool = ADVERSARIAL + sorted(set(names.values())) * 2
+                    cands = [n for n in pool if n not in toks and n not in used_new and not (v in g.in_template and n in ("...", "_"))]
+                    if not cands:
+                        continue
+                    n = rng.choice(cands)
                 names[v] = n; used_new.add(n); what.append((base_names[v], n))
             if what:
                 variants.append((Renderer(names, False).r(prog), what))
-        k0 = len(exprs)
-        exprs.append(ref); meta.append((p, 'ref', None, sorted(g.shapes), g.nested_aif))
-        exprs.append(base); meta.append((p, 'base', None, sorted(g.shapes), g.nested_aif))
+        exprs.append(ref); meta.append((p, 'ref', None, sorted(g.shapes), refd))
+        exprs.append(base); meta.append((p, 'base', None, sorted(g.shapes), refd))
         for (txt, what) in variants:
-            exprs.append(txt); meta.append((p, 'var', what, sorted(g.shapes), g.nested_aif))
-    out = scm.run_cases(d, exprs, prelude_extra=GLOBAL_MACROS, imports="(import (chibi))", timeout=600)
+            exprs.append(txt); meta.append((p, 'var', what, sorted(g.shapes), refd))
+        if refd is not None:
+            exprs.append(refd); meta.append((p, 'refd', None, sorted(g.shapes), refd))
+    out = scm.run_cases(d, exprs, prelude_extra=GLOBAL_MACROS, imports="(import (chibi))", timeout=60, chunk=400)
     byp = {}
     for e, o, m in zip(exprs, out, meta):
         byp.setdefault(m[0], []).append((e, o, m))
     shown = 0
     for p, items in byp.items():
         refo = items[0][1]
+        # F-C07-2: what the program evaluates to when (and only when) the `(if it ..)` inserted by an aif nested
+        # in the free-name branch of another aif reads the enclosing aif's `it` (the recorded redirect) - computed
+        # by a second hand expansion; any other deviation is a new violation
+        defect_out = None
+        if items[-1][2][1] == 'refd':
+            defect_out = items[-1][1]
+            items = items[:-1]
         for (e, o, m) in items[1:]:
             ctx.count(1, key=e, nontrivial=(m[1] == 'var'))
             if o == refo and not (o or "").startswith(("CRASH", "TIMEOUT")):
                 if m[1] == 'var' and shown < 3:
                     ctx.sample(dict(kind="outer", reference=items[0][0], renamed=e, renaming=m[2], result=o)); shown += 1
                 continue
-            if m[4]:
+            if defect_out is not None and o == defect_out and not (o or "").startswith(("ERR", "CRASH", "TIMEOUT")):
                 sig = "outer:sc-free-name-redirect-overrides-inner-binding"
             elif m[1] == 'base':
                 sig = "outer:macro-use-differs-from-hand-expansion"
             else:
-                cls = sorted(set(name_class(n) for _, n in m[2]), key=["core-keyword", "derived-keyword", "standard-procedure", "template-temporary"].index)
+                cls = sorted(set(name_class(n) for _, n in m[2]), key=["core-keyword", "derived-keyword", "standard-procedure", "template-temporary", "program-name"].index)
                 sig = "outer:renaming-changes-result:" + cls[0]
-            ctx.violation(sig, input=e, expected=refo, observed=o, renaming=m[2], reference_program=items[0][0],
+            ctx.violation(sig, input=e, expected=refo, observed=o, renaming=m[2], reference_program=items[0][0], shapes=m[3],
                           replay="cat > /tmp/c07.scm <<'EOF'\n(import (scheme base) (scheme write) (chibi))\n%s\n(write %s)(newline)\n(write %s)(newline)\nEOF\nchibi-scheme /tmp/c07.scm   # both lines must be equal" % (GLOBAL_MACROS, items[0][0], e))
         if (refo or "").startswith(("ERR", "CRASH", "TIMEOUT")):
             ctx.broken("outer-generator:C07", "reference program does not evaluate: %s -> %s" % (items[0][0], refo))
@@ -664,16 +808,20 @@ def run_corpus(ctx, d):
         line = line.strip()
         if not line or line.startswith("#"):
             continue
-        sig, ref, prog = [x.strip() for x in line.split("|||")]
-        cases.append((sig, ref, prog))
+        parts = [x.strip() for x in line.split("|||")]
+        sig, ref, prog = parts[:3]
+        cases.append((sig, ref, prog, parts[3] if len(parts) > 3 else None))
     exprs = []
-    for (sig, ref, prog) in cases:
-        exprs += [ref, prog]
-    out = scm.run_cases(d, exprs, prelude_extra=GLOBAL_MACROS, imports="(import (chibi))", timeout=300)
-    for k, (sig, ref, prog) in enumerate(cases):
-        ro, po = out[2 * k], out[2 * k + 1]
+    for (sig, ref, prog, known) in cases:
+        exprs += [ref, prog, known or "0"]
+    out = scm.run_cases(d, exprs, prelude_extra=GLOBAL_MACROS, imports="(import (chibi))", timeout=60, chunk=30)
+    for k, (sig, ref, prog, known) in enumerate(cases):
+        ro, po, ko = out[3 * k], out[3 * k + 1], out[3 * k + 2]
         ctx.count(1, key=("corpus", prog), nontrivial=True)
         if ro != po or (ro or "").startswith(("ERR", "CRASH", "TIMEOUT")):
+            if known is not None and po != ko:
+                # a recorded finding is only recognised by the exact value the recorded defect produces
+                sig = "corpus:known-finding-case-has-another-result"
             ctx.violation(sig, input=prog, expected="%s => %s" % (ref, ro), observed=po,
                           replay="cat > /tmp/c07.scm <<'EOF'\n(import (scheme base) (scheme write) (chibi))\n%s\n(write %s)(newline)\n(write %s)(newline)\nEOF\nchibi-scheme /tmp/c07.scm   # both lines must be equal" % (GLOBAL_MACROS, ref, prog))
 
@@ -686,6 +834,8 @@ def name_class(n):
         return "derived-keyword"
     if n in ("list", "cons", "car", "cdr", "+", "-", ">", "<", "=", "not", "eq?", "memv", "apply", "append", "map"):
         return "standard-procedure"
+    if re.fullmatch(r"u[0-9]+", n):
+        return "program-name"
     return "template-temporary"
 
 
@@ -694,8 +844,8 @@ def name_class(n):
 # K-mid: the model expander + resolve vs (chibi ast) analyze
 # =====================================================================================================
 MID_SYMS = ["lambda", "if", "quote", "set!", "m0", "m1", "m2", "m3", "m4", "m5", "m6", "m7", "m8",
-            "x", "y", "z", "t", "tmp", "f", "g", "h", "a", "b"]
-MID_CORE = {"lambda": 3, "if": 4, "quote": 6, "set!": 2}
+            "x", "y", "z", "t", "tmp", "f", "g", "h", "a", "b", "let-syntax", "letrec-syntax", "syntax-rules", "_", "p", "q", "w"]
+MID_CORE = {"lambda": 3, "if": 4, "quote": 6, "set!": 2, "let-syntax": 10, "letrec-syntax": 11, "syntax-rules": 100}
 MID_MACROS = [  # (arity, template as nested python lists; "vN" = pattern variable N)
     (2, [["lambda", ["t"], ["if", "t", "t", "v1"]], "v0"]),                       # m0: or2
     (3, [["lambda", ["v0"], "v2"], "v1"]),                                        # m1: let1 (user binder through the macro)
@@ -748,42 +898,110 @@ def mid_random_template(rng, k, arity):
     return go(3)
 
 
-def mid_form(rng, scope, depth, macros):
+def mid_form(rng, scope, depth, macros, kws=None, local_ok=True, force_kw=None):
     # (macro keywords are not used as variables here: an unshadowed one reaches the transformer as an
     #  identifier macro, errors inside the expansion, and the pinned chibi crashes when that is caught)
+    # kws: local keywords visible here (name -> arity); a lambda binding the name removes it
+    kws = kws or {}
     names = ["x", "y", "z", "t", "tmp", "a", "b", "if", "lambda", "quote", "f", "set!"]
-    def E(sc=scope, d=depth - 1):
-        return mid_form(rng, sc, d, macros)
+    def E(sc=scope, d=depth - 1, kw=kws):
+        return mid_form(rng, sc, d, macros, kw, local_ok)
+    def minus(ps):
+        return {k: v for k, v in kws.items() if k not in ps}
+    if force_kw is not None or (kws and rng.random() < 0.25):
+        k = force_kw if force_kw is not None else rng.choice(sorted(kws))
+        if k in kws:
+            return [k] + [E() for _ in range(kws[k])]
     r = rng.random()
     if depth <= 0 or r < 0.18:
         if scope and rng.random() < 0.7:
             return rng.choice(scope)
-        return rng.choice(["f", "g", "x", "t", "tmp", rng.randrange(0, 9), rng.randrange(0, 9)])
+        return rng.choice([a for a in ["f", "g", "x", "t", "tmp"] if a not in kws] + [rng.randrange(0, 9), rng.randrange(0, 9)])
     if r < 0.36:
         ps = rng.sample(names, rng.choice([1, 1, 2, 3]))
         if rng.random() < 0.03:
             ps = ps + [ps[0]]
-        return ["lambda", ps, E(scope + ps)]
+        return ["lambda", ps, E(scope + ps, depth - 1, minus(ps))]
     if r < 0.44:
         return ["if", E(), E(), E()]
     if r < 0.50:
         return ["quote", rng.choice(["x", "t", ["if", "x", 3], [], 4, ["quote", "tmp"]] + scope[:2])]
     if r < 0.56:
-        return ["set!", rng.choice(scope + ["g"]) if scope else "g", E()]
+        tg = [v for v in scope + ["g"] if v not in kws]
+        return ["set!", rng.choice(tg) if tg else "w", E()]
     if r < 0.86:
         k = rng.randrange(len(macros))
         ar = macros[k][0]
         args = [E() for _ in range(ar)]
         if k in (1, 6) or rng.random() < 0.2:          # binder positions want identifiers
-            args[0] = rng.choice(names)
+            args[0] = rng.choice([n for n in names if n not in kws] if k not in (1, 6) else names)
             if k == 1:
-                args[2] = mid_form(rng, scope + [args[0]], depth - 1, macros)
+                args[2] = mid_form(rng, scope + [args[0]], depth - 1, macros, minus([args[0]]), local_ok)
+            if k == 6:
+                args[1] = mid_form(rng, scope + [args[0]], depth - 1, macros, minus([args[0], "t"]), local_ok)
         if k == 2:
-            args = [rng.choice(scope + ["g"]), rng.choice(scope + ["h"])] if scope else ["g", "h"]
+            tg = [v for v in scope if v not in kws]
+            args = [rng.choice(tg + ["g"]), rng.choice(tg + ["h"])] if tg else ["g", "h"]
+            args = [("w" if a in kws else a) for a in args]
         return ["m%d" % k] + args
     if r < 0.9 and scope:
         return [rng.choice(scope)] + [E() for _ in range(rng.choice([0, 1, 2]))]
-    return [rng.choice(["f", "g", E()])] + [E() for _ in range(rng.choice([0, 1, 2]))]
+    if r < 0.97 and local_ok:
+        return mid_let_syntax(rng, scope, depth, macros, kws)
+    return [rng.choice([a for a in ["f", "g"] if a not in kws] + [E()])] + [E() for _ in range(rng.choice([0, 1, 2]))]
+
+
+def mid_let_syntax(rng, scope, depth, macros, kws):
+    """(let-syntax | letrec-syntax ((k (syntax-rules () ((_ p ..) template))) ..) body): keyword names collide with
+    user variables, with each other's template identifiers and with the global macros; templates mention
+    siblings, enclosing local keywords, outer variables, the macro's own name.
+    let-syntax: a sibling's / the macro's own name in a template denotes the OUTER binding (a variable);
+    letrec-syntax: it denotes the sibling keyword (only later siblings are used, so expansion terminates)."""
+    rec = rng.random() < 0.5
+    n = rng.choice([1, 2, 2, 3])
+    pool = ["x", "y", "z", "t", "tmp", "f", "g", "h", "a", "b"]
+    names = rng.sample(pool, n)
+    if not rec and rng.random() < 0.1 and n > 1:
+        names[1] = names[0]                       # let-syntax may bind a keyword twice: the later spec wins
+    arities = [rng.choice([1, 1, 2]) for _ in names]
+    specs = []
+    for idx, (k, ar) in enumerate(zip(names, arities)):
+        pvs = rng.sample(["p", "q", "x", "t"], ar)
+        visible = dict(kws)                       # keywords a template head may properly use
+        if rec:
+            for k2, ar2 in list(zip(names, arities))[idx + 1:]:
+                visible[k2] = ar2
+            hidden = set(names[:idx + 1])         # earlier siblings / itself: never mentioned (would recurse)
+        else:
+            hidden = set()
+        outer_named = {} if rec else dict(zip(names, arities))   # names that denote the outer variable here
+        heads = [h for h in list(names) + scope[:3] + ["f", "g", "x", "t"] + sorted(kws) if h not in hidden]
+        atoms = [h for h in heads if h not in visible or h in pvs]
+        def tm(d, bound=()):
+            r = rng.random()
+            if d <= 0 or r < 0.35:
+                return rng.choice(pvs * 3 + atoms + list(bound) + [rng.randrange(0, 9)])
+            if r < 0.5:
+                b = rng.choice(["t", "tmp", pvs[0]])
+                return ["lambda", [b], tm(d - 1, tuple(bound) + (b,))]
+            if r < 0.6:
+                return ["if", tm(d - 1, bound), tm(d - 1, bound), tm(d - 1, bound)]
+            h = rng.choice(heads)
+            if h in pvs or h in bound:
+                return [h] + [tm(d - 1, bound) for _ in range(rng.choice([1, 2]))]
+            if h in visible:
+                return [h] + [tm(d - 1, bound) for _ in range(visible[h])]
+            if h in outer_named:
+                # must be an application of the outer variable; were it (wrongly) taken for the sibling keyword the
+                # argument count does not fit, so the expansion fails instead of looping
+                return [h] + [tm(d - 1, bound) for _ in range(outer_named[h] + 1)]
+            return [h] + [tm(d - 1, bound) for _ in range(rng.choice([1, 2]))]
+        specs.append([k, ["syntax-rules", [], [["_"] + pvs, tm(2)]]])
+    inner_kws = dict(kws)
+    for k, ar in zip(names, arities):
+        inner_kws[k] = ar
+    body = mid_form(rng, [v for v in scope if v not in names], depth - 1, macros, inner_kws, force_kw=rng.choice(names))
+    return ["letrec-syntax" if rec else "let-syntax", specs, body]
 
 
 def sx_parse(s):
@@ -870,7 +1088,7 @@ def run_mid(ctx, d, exe, ncases):
     with open(path, "w") as fh:
         fh.write("\n".join(cases) + "\n")
     try:
-        r = B.run_chibi(d, [os.path.join(ROOT, "harness", "c07_analyze.scm"), path], timeout=600)
+        r = B.run_chibi(d, [os.path.join(ROOT, "harness", "c07_analyze.scm"), path], timeout=120 if not ctx.thorough else 900)
     finally:
         os.unlink(path)
     impl = {}
@@ -899,6 +1117,123 @@ def run_mid(ctx, d, exe, ncases):
 
 
 # =====================================================================================================
+# K-inner (renamer): the real make-renamer vs the extracted `rename`
+# =====================================================================================================
+RN_NAMES = ["t", "tmp", "if", "x"]
+
+
+def gen_renamer_script(rng):
+    """identifiers: symbols, raw closures, results of renamers applied to symbols AND to closures (the template
+    identifiers of macro-generated macros), several applications per renamer (= one expansion) and several
+    renamers (= several expansions, also of the same macro environment)"""
+    ops = []
+    nid = 0
+    for s in range(rng.choice([1, 2, 3])):
+        ops.append(("sym", nid, s)); nid += 1
+    nren = rng.choice([2, 3, 4])
+    for r in range(nren):
+        ops.append(("new", r, rng.choice([0, 0, 1, 2])))
+    for _ in range(rng.choice([4, 8, 12, 16])):
+        q = rng.random()
+        if q < 0.12:
+            ops.append(("clo", nid, rng.randrange(3), rng.randrange(nid)))
+        else:
+            # prefer closure arguments and repeated (renamer, argument) pairs
+            clos = [o[1] for o in ops if o[0] in ("app", "clo")]
+            x = rng.choice(clos) if (clos and rng.random() < 0.6) else rng.randrange(nid)
+            ops.append(("app", nid, rng.randrange(nren), x))
+        nid += 1
+    return ops
+
+
+def renamer_judge(ops):
+    """the specification: (R x) is a NEW object unless R was asked for the very object x before; it is a closure
+    over R's environment whose expression is x itself"""
+    cls, shape, memo, renv = {}, {}, {}, {}
+    for o in ops:
+        if o[0] == "sym":
+            cls[o[1]] = o[1]; shape[o[1]] = "s"
+        elif o[0] == "new":
+            renv[o[1]] = o[2]
+        elif o[0] == "clo":
+            cls[o[1]] = o[1]; shape[o[1]] = "(c %d %d)" % (o[2], cls[o[3]])
+        else:
+            _, j, r, x = o
+            key = (r, cls[x])
+            if key in memo:
+                cls[j] = memo[key]; shape[j] = shape[memo[key]]
+            else:
+                memo[key] = j; cls[j] = j; shape[j] = "(c %d %d)" % (renv[r], cls[x])
+    n = len(cls)
+    return "(%s) (%s)" % (" ".join(str(cls[j]) for j in range(n)), " ".join(shape[j] for j in range(n)))
+
+
+def renamer_replay(ops):
+    lines = ["(import (scheme base) (scheme write) (scheme eval) (chibi) (chibi ast))",
+             "(define envs (vector (interaction-environment) (environment '(scheme base)) (environment '(scheme write))))"]
+    for o in ops:
+        if o[0] == "sym":
+            lines.append("(define i%d '%s)" % (o[1], RN_NAMES[o[2]]))
+        elif o[0] == "new":
+            lines.append("(define r%d (make-renamer (vector-ref envs %d)))" % (o[1], o[2]))
+        elif o[0] == "clo":
+            lines.append("(define i%d (make-syntactic-closure (vector-ref envs %d) '() i%d))" % (o[1], o[2], o[3]))
+        else:
+            lines.append("(define i%d (r%d i%d))" % (o[1], o[2], o[3]))
+    n = max(o[1] for o in ops if o[0] != "new") + 1
+    lines.append("(write (list %s))   ; for each identifier: is it eq? to an earlier one" % " ".join(
+        "(list %s)" % " ".join("(eq? i%d i%d)" % (a, b) for a in range(b)) for b in range(n)))
+    return "\n".join(lines)
+
+
+def run_renamer(ctx, d, exe, nscripts):
+    rng = ctx.rng
+    scripts = [gen_renamer_script(rng) for _ in range(nscripts)]
+    reqs, where = [], []
+    for n, ops in enumerate(scripts):
+        reqs.append("rn_reset")
+        for o in ops:
+            reqs.append("rn_%s %s" % (o[0], " ".join(str(v) for v in o[1:])))
+        reqs.append("rn_dump"); where.append(len(reqs) - 1)
+    mo = ctx.run_model(exe, reqs)
+    path = os.path.join(B.SCRATCH, "c07_rn_%d.cases" % os.getpid())
+    with open(path, "w") as fh:
+        for n, ops in enumerate(scripts):
+            fh.write("(%d %s)\n" % (n, " ".join("(%s %s)" % (o[0], " ".join((RN_NAMES[v] if (o[0] == "sym" and k == 1) else str(v)) for k, v in enumerate(o[1:]))) for o in ops)))
+    try:
+        r = B.run_chibi(d, [os.path.join(ROOT, "harness", "c07_renamer.scm"), path], timeout=120)
+    finally:
+        os.unlink(path)
+    impl = {}
+    for line in r.stdout.split("\n"):
+        sp = line.find(" ")
+        if sp > 0 and line[:sp].isdigit():
+            impl[int(line[:sp])] = line[sp + 1:].strip()
+    if "DONE" not in r.stdout:
+        ctx.broken("renamer-correspondence:C07", "renamer driver died rc=%s after %d/%d scripts: %s" % (r.returncode, len(impl), len(scripts), r.stderr[-600:]))
+    shown = 0
+    for n, ops in enumerate(scripts):
+        if n not in impl:
+            continue
+        exp = renamer_judge(ops)
+        m, i = mo[where[n]], impl[n]
+        closure_arg = any(o[0] == "app" and any(p[1] == o[3] and p[0] in ("app", "clo") for p in ops) for o in ops)
+        ctx.count(1, key=("renamer", tuple(ops)), nontrivial=closure_arg)
+        ctx.cov["traces_validated_against_impl"] += 1
+        if m == i == exp:
+            if shown < 1 and closure_arg:
+                ctx.sample(dict(kind="renamer", script=[list(o) for o in ops], identity_pattern=i)); shown += 1
+            continue
+        if i != exp:
+            ctx.violation("renamer:identity-pattern" + (":closure-argument" if closure_arg else ""), input=[list(o) for o in ops], expected=exp, observed=i, model=m,
+                          replay=renamer_replay(ops),
+                          why="make-renamer must return a NEW syntactic closure over its macro environment for every identifier (symbol or closure) "
+                              "it has not been asked for before, and the remembered one otherwise; classes = smallest eq? identifier, shapes = (c env expr)")
+        else:
+            ctx.broken("correspondence:renamer", "model differs from make-renamer and from the judge: model=%s impl=%s script=%s" % (m, i, ops))
+
+
+# =====================================================================================================
 def run(ctx):
     n_scen, n_prog, n_mid = (150, 250, 400) if not ctx.thorough else (4000, 6000, 20000)
     ctx.cov["rule"] = ("inner: random environment chains (2-6 frames, 2-4 symbols so that names collide), bindings and rename entries "
@@ -909,16 +1244,26 @@ def run(ctx):
                        "free reference, nested ellipsis, literals, recursive, macro-defining, let-syntax, letrec-syntax, internal "
                        "define-syntax, er and sc transformers; built-ins: or and cond case do let* named-let when) evaluated hand-expanded "
                        "/ with macros / with 1-3 user binders renamed to a name not used by the user text in the binder's scope "
-                       "drawn from keywords, standard procedures, template-free names and init-7 temporaries; non-trivial = a renamed variant")
+                       "drawn from keywords, standard procedures, template-free names, init-7 temporaries, every other name of the program (other binders, "
+                       "local keywords) and, where the binding form's scoping allows it although the name occurs in the scope text, sibling keywords of a "
+                       "let-syntax / the macro's own name / keywords bound by an enclosing let-syntax / temporaries of a generated macro; plus a focused "
+                       "stream whose top shape is a local-macro scoping shape or a macro-generating macro (accumulated temporaries, generated "
+                       "binding macro used in the same template; nesting depth 1-2); non-trivial = a renamed variant. "
+                       "renamer: scripts of make-renamer calls (2-4 renamers over 3 environments, arguments symbols, raw closures and earlier results, "
+                       "repeated pairs) compared by eq?-classes and (env, expr) shapes with the extracted rename and an independent judge. "
+                       "mid: forms now include let-syntax / letrec-syntax with 1-3 specs whose keyword names collide with variables, siblings and template identifiers")
     ctx.coq_obligations("Properties_C07")
     d = ctx.build("default")
     exe = ctx.extract("C07")
     if exe is None:
         return
     run_inner(ctx, d, exe, n_scen)
+    run_renamer(ctx, d, exe, 120 if not ctx.thorough else 3000)
     run_mid(ctx, d, exe, n_mid)
     run_outer(ctx, d, n_prog)
     ctx.assume("closure and cell identity is modelled by allocation numbers (distinct objects have distinct numbers)")
     ctx.assume("a closure holds a snapshot of its environment: cyclic structures (a frame that contains, as a key, a closure over itself) are outside the model and the generator")
     ctx.assume("build configuration " + MODEL_CONFIG + " (checked against the scratch build by the harness)")
-    ctx.assume("define / define-syntax / let-syntax / letrec-syntax, ellipsis, literals and multi-rule syntax-rules are tied by the outer metamorphic runs only, not by the model expander")
+    ctx.assume("define / define-syntax (top-level and internal), ellipsis, literals and multi-rule syntax-rules are tied by the outer metamorphic runs only, not by the model expander; "
+               "let-syntax / letrec-syntax are inside the model for single-rule ellipsis-free specs written with plain symbols (duplicate letrec-syntax keywords excluded)")
+    ctx.assume("(scheme base) let-syntax / letrec-syntax wrap the core splicing forms in (let () ..): the analyze comparison drops that parameterless lambda")
